@@ -88,6 +88,11 @@ def interpret(m, f, sep_given, more_flags=None):
         if isinstance(e, ast.BinOp) and isinstance(e.op, (ast.Add, ast.Sub)):
             a, b = ev(e.left, k), ev(e.right, k)
             return a + b if isinstance(e.op, ast.Add) else a - b
+        if isinstance(e, ast.IfExp):
+            v = eval_guard(e.test, flag_valuation(flags, extra))
+            if v is None:
+                raise Undecided('condition %s' % norm(e.test))
+            return ev(e.body if v else e.orelse, k)
         raise Undecided('expression %s' % t)
 
     def run(stmts, k):
